@@ -1,5 +1,6 @@
 """isoutil.py — ISO8583 helpers for the harness: protocol serialisation, configurations, message generators."""
 import datetime
+import decimal
 import rx
 import re
 
@@ -48,6 +49,8 @@ def val_text(v):
         if v.microsecond or v.tzinfo is not None:
             raise TypeError('datetime with microseconds / tz')
         return 'd%d.%d.%d.%d.%d.%d' % (v.year, v.month, v.day, v.hour, v.minute, v.second)
+    if isinstance(v, decimal.Decimal):
+        return 'c' + hs(str(v))     # the model has no decimal values: it reads the text and answers Unmodelled for a decimal field
     raise TypeError('unsupported value type %s' % type(v).__name__)
 
 
@@ -63,6 +66,8 @@ def val_of_text(t):
         return b'' if r == '-' else bytes.fromhex(r)
     if c == 'd':
         return datetime.datetime(*map(int, r.split('.')))
+    if c == 'c':
+        return decimal.Decimal(unhs(r))
     raise ValueError(t)
 
 
@@ -139,7 +144,7 @@ DE43_PATTERNS = [DE43_REGEX, DE43_REGEX, DE43_REGEX,
 DATE_FORMATS = ['%y%m%d', '%y%m%d%H%M%S', '%Y%m%d', '%H%M%S', '%m%d', '%Y%m%d%H%M%S', '%d%m%y']
 
 
-def gen_config(rng, allbits=False, modelled_only=False):
+def gen_config(rng, allbits=False, modelled_only=False, decimals=None):
     """a caller-supplied configuration: random field types, widths, python types and processors"""
     cfg = {}
     bits = list(range(2, 128)) if allbits else sorted(rng.sample(range(2, 128), rng.randrange(3, 40)))
@@ -176,6 +181,13 @@ def gen_config(rng, allbits=False, modelled_only=False):
                 c['field_processor_config'] = rng.choice(DE43_PATTERNS[:-1] if modelled_only else DE43_PATTERNS)
             elif t < 0.5:
                 c['field_python_type'] = 'int'
+        if (decimals if decimals is not None else not modelled_only) and c.get('field_python_type') in ('int', 'long') and rng.random() < 0.3:
+            # the decimal python type: outside the model (Unmodelled), judged by the independent references only
+            c['field_python_type'] = 'decimal'
+            if c['field_length'] < 3:
+                # (a variable field's nominal length is not enforced, but format(Decimal, '00f') is not a valid format:
+                # a decimal element needs a width of at least 1; the generator gives it a real one)
+                c['field_length'] = rng.choice([4, 6, 12])
         if 'field_python_type' not in c and rng.random() < 0.3:
             c['field_python_type'] = 'string'          # the documented explicit spelling of the default type
         cfg[str(b)] = c
@@ -348,6 +360,8 @@ def rand_value(rng, c, codec):
         return rng.choice([0, 1, 10 ** w - 1, rng.randrange(0, 10 ** w)])
     if pt == 'datetime':
         return rand_date(rng, c.get('field_date_format', '%y%m%d'))
+    if pt == 'decimal':
+        return rand_decimal(rng, c['field_length'] if ft == 'FIXED' else rng.choice([3, c['field_length'], 20, min(vmax, 40)]))
     if ft == 'FIXED':
         return rand_text(rng, codec, c['field_length'])
     if proc == 'PDS':
@@ -358,6 +372,37 @@ def rand_value(rng, c, codec):
         n = rng.choice([10, 13, 16, 19, rng.randint(10, 40), rng.randint(1, 9)])
         return ''.join(rng.choice('0123456789') for _ in range(n))
     return rand_text(rng, codec, pick_len(rng, 1, vmax))
+
+
+def rand_decimal(rng, w, exact=False):
+    """a finite decimal whose plain fixed-point text (sign, digits, point) has at most w characters"""
+    s = rng.choice([0, 0, 1, 2, 3, 6])
+    if s + 2 > w:
+        s = 0
+    neg = rng.random() < 0.25 and w >= s + (3 if s else 2)
+    room = w - (s + 1 if s else 0) - (1 if neg else 0)
+    nint = rng.choice([1, room, rng.randint(1, room)])
+    ip = ''.join(rng.choice('0123456789') for _ in range(nint))
+    if rng.random() < 0.5:
+        ip = str(int(ip))                       # no leading zeros
+    fp = ''.join(rng.choice('0123456789') for _ in range(s))
+    return decimal.Decimal(('-' if neg else '') + ip + ('.' + fp if s else ''))
+
+
+def ref_dec_text(d, w):
+    """format(d, '0<w>f') for a finite Decimal, written from the number's sign / digits / exponent: plain fixed-point
+    notation with exactly the number's own decimal places, zeros between the sign and the digits up to width w"""
+    sign, digits, exp = d.as_tuple()
+    ds = ''.join(str(x) for x in digits)
+    if exp >= 0:
+        ip, fp = ds + '0' * exp, ''
+    else:
+        ds = ds.rjust(-exp + 1, '0')
+        ip, fp = ds[:exp], ds[exp:]
+    ip = ip.lstrip('0') or '0'
+    body = ip + ('.' + fp if fp else '')
+    sg = '-' if sign else ''
+    return sg + body.rjust(max(0, w - len(sg)), '0')
 
 
 def rand_message(rng, cfg, codec, with_pds=None, bits=None, nbits=None):
@@ -603,6 +648,8 @@ def ref_render(c, v, codec):
     pt = c.get('field_python_type')
     if pt in ('int', 'long'):
         v = '%0*d' % (c.get('field_length', 0), int(v))
+    elif pt == 'decimal':
+        v = ref_dec_text(decimal.Decimal(v), c.get('field_length', 0))
     elif pt == 'datetime':
         v = v.strftime(c.get('field_date_format', '%y%m%d'))
     ft = c['field_type']
@@ -654,6 +701,11 @@ def ref_convert(c, raw, codec):
     pt = c.get('field_python_type')
     if pt in ('int', 'long'):
         return int(s)
+    if pt == 'decimal':
+        try:
+            return decimal.Decimal(s)
+        except decimal.InvalidOperation as ex:
+            raise ValueError(str(ex))
     if pt == 'datetime':
         return datetime.datetime.strptime(s, c.get('field_date_format', '%y%m%d'))
     return s
